@@ -48,6 +48,10 @@ def true_starts(o):
 
 def check(run):
     prog = run.prog
+    from . import common as _common
+    _common.fresh_hits(run, "C12")
+    # "host as canonical IP, labelled exactly when the text was not canonical": the IP parsers are C10's rules
+    _common.delegate(run, "C10", lambda rule, key: rule == "R5-ip-label" or key.endswith("/value-is-compressed-form"), floor=6)
     nm = prog.mod("decoders.network")
     A = sites.analysis(prog)
     w = lambda n, m=nm: f"{m.rel}:{getattr(n, 'lineno', 1)}"   # noqa: E731
